@@ -126,13 +126,16 @@ pub struct Scenario {
     pub settle: Vec<Act>,
     /// socket starts with this much write credit (None: unlimited)
     pub initial_credit: Option<usize>,
-    /// per-settle poll cap (self-wake livelock guard)
+    /// poll cap after the last action (self-wake livelock guard: never terminating)
     pub poll_cap: u64,
+    /// poll cap after every other action: self-wake spinning while something is still disabled
+    /// (e.g. a full read buffer behind a pending handler) is counted, not judged
+    pub mid_cap: u64,
 }
 
 impl Scenario {
     pub fn new(cfg: ConnCfg, progs: Vec<Prog>, ngates: usize) -> Self {
-        Scenario { cfg, progs, default_prog: None, ngates, acts: vec![], settle: vec![], initial_credit: None, poll_cap: 20_000 }
+        Scenario { cfg, progs, default_prog: None, ngates, acts: vec![], settle: vec![], initial_credit: None, poll_cap: 20_000, mid_cap: 3_000 }
     }
 }
 
@@ -162,8 +165,10 @@ pub struct Outcome {
     pub shutdown_done: bool,
     pub dropped: bool,
     pub out_at_shutdown: Option<usize>,
-    /// a settle() ran into the poll cap (self-waking without end)
+    /// the connection was still waking itself after `poll_cap` polls following the last action
     pub livelock: bool,
+    /// number of earlier actions after which it was still self-waking at `mid_cap` polls
+    pub spins: u64,
     /// after the settling phase: future still pending and no wake-up outstanding
     pub stalled: bool,
     /// ... and what a forced poll did then (diagnosis only)
@@ -246,12 +251,21 @@ pub fn run_scenario(sc: &Scenario) -> Outcome {
             io.set_credit(c);
         }
         let mut livelock = false;
+        let mut spins = 0u64;
         let mut now_ms = 0u64;
         let mut snaps = Vec::with_capacity(sc.acts.len() + sc.settle.len());
-        quiet(&mut d, sc.poll_cap, &mut livelock).await;
-        for a in sc.acts.iter().chain(sc.settle.iter()) {
+        let total = sc.acts.len() + sc.settle.len();
+        let mut spun = false;
+        quiet(&mut d, sc.mid_cap, &mut spun).await;
+        for (ai, a) in sc.acts.iter().chain(sc.settle.iter()).enumerate() {
             apply(a, &io, &w, &mut now_ms).await;
-            quiet(&mut d, sc.poll_cap, &mut livelock).await;
+            if ai + 1 == total {
+                quiet(&mut d, sc.poll_cap, &mut livelock).await;
+            } else {
+                let mut spun = false;
+                quiet(&mut d, sc.mid_cap, &mut spun).await;
+                spins += u64::from(spun);
+            }
             snaps.push(Snap {
                 out_len: io.out_len(),
                 n_reqs: w.borrow().reqs.len(),
@@ -284,6 +298,7 @@ pub fn run_scenario(sc: &Scenario) -> Outcome {
             dropped: s.dropped,
             out_at_shutdown: s.out_at_shutdown,
             livelock,
+            spins,
             stalled,
             stall_forced_poll_progress: forced,
             polls: d.polls,
